@@ -36,6 +36,7 @@ OWNERS = {
     "bitstr.Len": ["C09"],
     "bitmap.FromStr32": ["C11"], "bmtree.PathOf": ["C11"],
     "bitmap.TailBitmap.Get": ["C15"], "bitmap.TailBitmap.Get1": ["C15"], "bitword.bitWord.Get": ["C08"],
+    "iohelper.NewSectionWriter": ["C18"], "iohelper.AtToWriter": ["C18"],
     "iohelper.SectionWriter.Seek": ["C18"], "iohelper.SectionWriter.Size": ["C18"],
     # listed to document the bail-out (loops): unsupported in the baseline as well
     "bmtree.shiftMulti": ["C03"], "bmtree.IndexToPath": ["C05"], "bitmap.IndexRank64": ["C01"],
